@@ -1003,9 +1003,17 @@ pub struct SpellStats {
 /// Render a layout with a spelling plan. Returns the argument vector and, for each item of the
 /// vector, the uid of the layout item it came from (clusters: the first one).
 pub fn render(lay: &Layout, plan: &SpellPlan, opts: &SpellOpts, stats: &mut SpellStats) -> (Vec<Vec<u8>>, Vec<usize>) {
+    let (a, b, _) = render_full(lay, plan, opts, stats);
+    (a, b)
+}
+
+/// like `render`; the third vector tells for every item whether it is an argument name whose
+/// value is the following item
+pub fn render_full(lay: &Layout, plan: &SpellPlan, opts: &SpellOpts, stats: &mut SpellStats) -> (Vec<Vec<u8>>, Vec<usize>, Vec<bool>) {
     let find = |uid: usize| plan.plan.iter().find(|p| p.0 == uid).map(|p| (p.1, p.2));
     let mut out: Vec<Vec<u8>> = Vec::new();
     let mut src: Vec<usize> = Vec::new();
+    let mut owns: Vec<bool> = Vec::new();
     let mut i = 0;
     let items = &lay.items;
     while i < items.len() {
@@ -1103,7 +1111,9 @@ pub fn render(lay: &Layout, plan: &SpellPlan, opts: &SpellOpts, stats: &mut Spel
                             }
                             out.push(item);
                             src.push(it.uid);
+                            owns.resize(out.len(), false);
                             if let Some(e) = extra {
+                                *owns.last_mut().unwrap() = true;
                                 out.push(e);
                                 src.push(items[j - 1].uid);
                             }
@@ -1124,13 +1134,21 @@ pub fn render(lay: &Layout, plan: &SpellPlan, opts: &SpellOpts, stats: &mut Spel
                     (true, Spelling::Detached) => stats.detached += 1,
                     _ => {}
                 }
-                for x in spell(o, sp) {
+                let spelled = spell(o, sp);
+                let two = spelled.len() == 2;
+                for x in spelled {
                     out.push(x);
                     src.push(it.uid);
+                }
+                owns.resize(out.len(), false);
+                if two {
+                    let n = owns.len();
+                    owns[n - 2] = true;
                 }
                 i += 1;
             }
         }
     }
-    (out, src)
+    owns.resize(out.len(), false);
+    (out, src, owns)
 }
